@@ -403,9 +403,19 @@ func (n *CandidateNode) UpdateFrom(other *CandidateNode, prefs assignPreferences
 		n.Style = other.Style
 	}
 
+	newContent := other.Content
+	for ancestor := n.Parent; ancestor != nil; ancestor = ancestor.Parent {
+		if ancestor == other {
+			// assigning a node one of its own ancestors (.a.b = .a): take the children as they are now,
+			// before n - one of their descendants - is emptied
+			newContent = other.Copy().Content
+			break
+		}
+	}
+
 	n.Content = make([]*CandidateNode, 0)
 	n.Kind = other.Kind
-	n.AddChildren(other.Content)
+	n.AddChildren(newContent)
 
 	n.Value = other.Value
 
